@@ -460,6 +460,13 @@ func runTraceStock(k *vf.Case) {
 	if rec.shutdowns.Load() > 1 {
 		fail("exporter-shut-down-twice", "", "")
 	}
+	if firstKind == "cancelled" && expKind == "recording" {
+		// the first call ran out of time at once; live calls followed: the exporter still gets its one Shutdown
+		time.Sleep(20 * time.Millisecond)
+		if n := rec.shutdowns.Load(); n != 1 {
+			fail("exporter-shutdown-count", "first Shutdown on a done context", fmt.Sprintf("%d; calls %v", n, callLog))
+		}
+	}
 	if expKind == "nil" {
 		k.C.Count("programs_with_nil_exporter", 1)
 	}
@@ -589,6 +596,11 @@ func runMetric(k *vf.Case) {
 		if firstKind != "cancelled" {
 			if expKind == "recording" && rec.shutdowns.Load() != 1 {
 				fail("exporter-shutdown-count", "", fmt.Sprintf("%d", rec.shutdowns.Load()))
+			}
+		} else if expKind == "recording" {
+			time.Sleep(20 * time.Millisecond)
+			if n := rec.shutdowns.Load(); n != 1 {
+				fail("exporter-shutdown-count", "first Shutdown on a done context", fmt.Sprint(n))
 			}
 		}
 		if buf.Len() != outLen || rec.exports.Load() != exports {
@@ -744,6 +756,12 @@ func runLog(k *vf.Case) {
 	}
 	if rec.shutdowns.Load() > 1 && !direct {
 		fail("exporter-shut-down-twice", "", fmt.Sprint(rec.shutdowns.Load()))
+	}
+	if firstKind == "cancelled" && expKind == "recording" && !direct {
+		time.Sleep(20 * time.Millisecond)
+		if n := rec.shutdowns.Load(); n != 1 {
+			fail("exporter-shutdown-count", "first Shutdown on a done context", fmt.Sprint(n))
+		}
 	}
 	if expKind == "nil" {
 		k.C.Count("programs_with_nil_exporter", 1)
@@ -1006,6 +1024,7 @@ func runShutdownRace(k *vf.Case) {
 	d := time.Duration(r.Intn(300)) * time.Microsecond
 	shutdowners := 1 + r.Intn(2)
 	flushers := r.Intn(3)
+	flushForever := r.Bool()
 	delaySpins := r.Intn(200)
 	var emit func(i int)
 	var flush, shutdown func(ctx context.Context) error
@@ -1070,6 +1089,10 @@ func runShutdownRace(k *vf.Case) {
 	for f := 0; f < flushers; f++ {
 		guard(func() {
 			for i := 0; i < 5; i++ {
+				if flushForever {
+					flush(context.Background()) // a context that never expires: the call itself has to come back
+					continue
+				}
 				ctx, cancel := context.WithTimeout(context.Background(), 5*time.Second)
 				flush(ctx)
 				cancel()
@@ -1134,6 +1157,65 @@ func runShutdownRace(k *vf.Case) {
 	}
 }
 
+// runMultiReader: a MeterProvider with two or three readers of which some fail while shutting down (their
+// final export fails). One failing reader must not keep the others from being shut down.
+func runMultiReader(k *vf.Case) {
+	r := k.R
+	ctx := context.Background()
+	n := 2 + r.Intn(2)
+	var opts []sdkmetric.Option
+	var exps []*recMetricExp
+	var manuals []*sdkmetric.ManualReader
+	failing := 0
+	for i := 0; i < n; i++ {
+		if r.Chance(1, 4) {
+			m := sdkmetric.NewManualReader()
+			manuals = append(manuals, m)
+			opts = append(opts, sdkmetric.WithReader(m))
+			continue
+		}
+		e := &recMetricExp{failExport: r.Bool()}
+		if e.failExport {
+			failing++
+		}
+		exps = append(exps, e)
+		opts = append(opts, sdkmetric.WithReader(sdkmetric.NewPeriodicReader(e, sdkmetric.WithInterval(time.Hour))))
+	}
+	mp := sdkmetric.NewMeterProvider(opts...)
+	c, _ := mp.Meter("multi").Int64Counter("c")
+	c.Add(ctx, 1)
+	finished, stuck, desc := vf.Watch(20*time.Second, 2*time.Second, func() {
+		mp.Shutdown(ctx)
+		mp.Shutdown(ctx)
+	})
+	if !finished {
+		if stuck {
+			k.Violate("blocks-forever", "MeterProvider.Shutdown with several readers", desc, nil)
+		} else {
+			k.C.Inconclusive("multi-reader shutdown did not finish")
+		}
+		return
+	}
+	for i, e := range exps {
+		if got := e.shutdowns.Load(); got != 1 {
+			k.Violate("exporter-shutdown-count", "several readers", fmt.Sprintf("exporter %d of %d periodic readers (%d with a failing final export) was shut down %d times", i+1, len(exps), failing, got), nil)
+			break
+		}
+	}
+	for _, m := range manuals {
+		var rm metricdata.ResourceMetrics
+		if err := m.Collect(ctx, &rm); !errors.Is(err, sdkmetric.ErrReaderShutdown) {
+			k.Violate("collect-after-shutdown", "several readers", fmt.Sprint(err), nil)
+			break
+		}
+	}
+	k.C.Count("multi_reader_programs", 1)
+	if failing > 0 {
+		k.C.Count("multi_reader_programs_with_a_failing_reader", 1)
+	}
+	k.C.Sig(fmt.Sprintf("multi|%d|%d|%d", n, failing, len(manuals)))
+}
+
 func main() {
 	vf.Main("C15", "exploration", func(c *vf.Ctx) {
 		c.Rule = "child process per batch of programs: (A) sequential programs of 5-60 Register/Unregister(registered, never registered, already unregistered)/Tracer/Start+End/ForceFlush/Shutdown(live, deadline, cancelled) on the TracerProvider against a membership model; (B) stock matrix {Simple,Batch} span processor x {recording, stdouttrace, nil} exporter, (C) {Manual, Periodic} reader x {recording incl. failing export, stdoutmetric}, (D) {Simple,Batch} log processor x {recording, stdoutlog, nil}, each with 1-4 Shutdown calls issued sequentially or concurrently, through the provider or the component, then telemetry/flush/shutdown calls after Shutdown; (E) concurrent op alphabet on the TracerProvider from 2-16 goroutines under -race; (F) 4-16 producers, 0-2 flushers and 1-2 Shutdown callers released together on a batch span processor (blocking and dropping, queue 1-4), log batch processor (queue 1-8) or periodic reader with a slow exporter: every call must return (watchdog 30 s + two identical stack samples). distinct = distinct (family, component kinds, shutdown pattern, context kind) signatures"
@@ -1145,6 +1227,8 @@ func main() {
 		c.Isolated("trace-stock", c.N(800, 10_000), iso, runTraceStock)
 		c.Isolated("metric", c.N(800, 10_000), iso, runMetric)
 		c.Isolated("log", c.N(800, 10_000), iso, runLog)
+		c.Isolated("metric-multi-reader", c.N(400, 5_000), iso, runMultiReader)
+		c.Floor("multi_reader_programs_with_a_failing_reader", 100)
 		c.Isolated("trace-concurrent", c.N(400, 6000), vf.IsoOpts{Batch: 25, Par: 8, Timeout: 5 * time.Minute}, runTraceConcurrent)
 		c.Isolated("shutdown-race", c.N(1200, 20_000), vf.IsoOpts{Batch: 40, Par: 16, Timeout: 5 * time.Minute}, runShutdownRace)
 		c.Floor("shutdown_race_cases", 600)
